@@ -13,6 +13,8 @@ Record stepcase := {
   sc_prev : graph;                 (* self.molecule on entry (the coarse graph to be) *)
   sc_fd : fragdict;                (* fragment_dicts[resolution_counter] *)
   sc_tr : transcript;              (* recorded results of squash / rebuild_h / ez (None = stage was a no-op) *)
+  sc_car : option graph;           (* the molecule right after pysmiles' correct_aromatic_rings inside rebuild_h_atoms
+                                      (None: not an all-atom step, or the correction raised) *)
   sc_m2 : option graph;            (* self.molecule on entry of squash_atoms *)
   sc_m5 : option graph;            (* result of sort_nodes_by_attr *)
   sc_out : option (fgraphs * graph);  (* returned coarse 'graph' attributes and fine graph *)
